@@ -284,3 +284,5 @@ func verifMain(args []string) int {
 	o.close(dir)
 	return 0
 }
+
+func (l sxList) String() string { return sxString(l) }
